@@ -158,6 +158,19 @@ def build_cases(ck, tmp, variant=0):
                 "suit-parameter-image-digest": {"suit-digest-algorithm-id": "cose-alg-sha-256", "suit-digest-bytes": {"file_direct": p1}},
                 "suit-parameter-image-size": {"file_direct": p2}}}]})
             cases.append((desc, {p1: dg, p2: b"77"}, {"kind": "file_direct", "alg": "cose-alg-sha-256", "size": 77, "digest": dg, "len": 77, "form": f"ws{w}-{form}"}))
+    # the referenced path is a symbolic link (absolute and relative target): digest, size and payload describe the file it points to
+    for k, (size, alg) in enumerate([(255, algs[0]), (65536 if ck.deep else 4097, algs[1])]):
+        c = blob(size + 3 * variant, 90 + k + variant)
+        real = fpath(c, "real_fw.bin")
+        link = os.path.join(os.path.dirname(real), "fw_link.bin")
+        if os.path.lexists(link):
+            os.remove(link)
+        os.symlink(real if k == 0 else os.path.basename(real), link)
+        desc = base_env({"suit-install": [{"suit-directive-override-parameters": {
+            "suit-parameter-image-digest": {"suit-digest-algorithm-id": alg, "suit-digest-bytes": {"file": link}},
+            "suit-parameter-image-size": {"file": link}}}]}, {"suit-integrated-payloads": {"#fw": link}})
+        cases.append((desc, {link: c}, {"kind": "file", "alg": alg, "size": len(c), "digest": HASH[ALG_ID[alg]](c), "len": len(c), "form": "symlink",
+                                          "link": [link, real if k == 0 else os.path.basename(real), real]}))
     # raw forms
     desc = base_env({"suit-install": [{"suit-directive-override-parameters": {
         "suit-parameter-image-digest": {"suit-digest-algorithm-id": "cose-alg-sha-256", "suit-digest-bytes": {"raw": "00" * 32}},
@@ -270,8 +283,16 @@ def replay(path):
     if inp.get("pass", 0) > 0:
         print("the failing create is part of a history (the same paths rewritten between creates in one process): re-running the histories")
         return run("quick", rec.get("seed", 0))
+    link = (inp.get("expect") or {}).get("link")
     for p, c in inp.get("files", {}).items():
         os.makedirs(os.path.dirname(p), exist_ok=True)
+        if link and p == link[0]:
+            if os.path.lexists(p):
+                os.remove(p)
+            with open(link[2], "wb") as fh:
+                fh.write(bytes.fromhex(c))
+            os.symlink(link[1], p)
+            continue
         with open(p, "wb") as fh:
             fh.write(bytes.fromhex(c))
     r = interp.run_impl(interp.impl_create, inp["description"])
